@@ -16,6 +16,7 @@ def main():
     ap.add_argument("--workers", type=int)
     ap.add_argument("--seed", type=int, default=int(os.environ.get("VERIF_SEED", "0") or 0))
     ap.add_argument("--only")
+    ap.add_argument("--trace", action="store_true", help="with --replay: print the recorded event log of the replayed run")
     a = ap.parse_args()
     os.chdir(HERE)
     from sim import runner
@@ -28,6 +29,8 @@ def main():
     if not a.property:
         ap.error("property required")
     if a.replay:
+        if a.trace:
+            os.environ["VERIF_TRACE"] = "1"
         return runner.replay(a.property, a.replay)
     return runner.run_check(a.property, a.tier, a.seed, workers=a.workers, runs=a.runs)
 
